@@ -26,7 +26,8 @@ func (b Branch) Target(ctx context.Context, height int) (*big.Int, error) {
 		return nil, errors.Wrap(err, "first header stats")
 	}
 
-	timeSpan := lastTime - firstTime
+	// The time span is signed. The median times are not necessarily in order.
+	timeSpan := int64(lastTime) - int64(firstTime)
 
 	// Apply time span limits
 	if timeSpan < 72*600 {
@@ -43,7 +44,7 @@ func (b Branch) Target(ctx context.Context, height int) (*big.Int, error) {
 	// Projected Work (PW) = (W * 600) / TS.
 	projected := &big.Int{}
 	projected.Mul(work, big.NewInt(600))
-	projected.Div(projected, big.NewInt(int64(timeSpan)))
+	projected.Div(projected, big.NewInt(timeSpan))
 
 	target := bitcoin.ConvertToWork(projected)
 
@@ -83,7 +84,21 @@ func (b Branch) MedianTimeAndWork(ctx context.Context,
 	}
 
 	// Sort by time
-	sort.Sort(list)
+	if count == 3 {
+		// Use the same comparisons as the network's difficulty adjustment algorithm so that the
+		// same header is selected when timestamps are equal.
+		if list[0].time > list[2].time {
+			list[0], list[2] = list[2], list[0]
+		}
+		if list[0].time > list[1].time {
+			list[0], list[1] = list[1], list[0]
+		}
+		if list[1].time > list[2].time {
+			list[1], list[2] = list[2], list[1]
+		}
+	} else {
+		sort.Sort(list)
+	}
 
 	// Get values from the middle item in the list.
 	result := list[count/2]
